@@ -110,6 +110,22 @@ func (f *Fam) genWire(r *rand.Rand) string {
 		}
 		return "mon.cointext " + strings.Join(p, ",")
 	}
+	if r.Intn(8) == 0 { // the text form of a decimal coin, well formed and not
+		num := []string{"0.5", "1.000000000000000000", ".5", "5.", "0.0000000000000000001", "123456789.123456789012345678",
+			"1.0000000000000000000", "00.10", "1", "1.-5", ".", "0.", "99999999999999999999999999999999999999999999999999999999999999999999999999999.0"}[r.Intn(13)]
+		if r.Intn(3) == 0 {
+			a := genBig(r)
+			a.Abs(a)
+			num = sdk.NewDecFromBigIntWithPrec(a, 18).String()
+		}
+		den := []string{"upokt", "abc", "zzzzzzzzzzzzzzzz", "Abc", "ab", ""}[r.Intn(6)]
+		sp := []string{"", "", " ", "\t"}[r.Intn(4)]
+		txt := num + sp + den
+		if r.Intn(5) == 0 {
+			txt += "," + txt
+		}
+		return "mon.deccointext " + hx([]byte(txt))
+	}
 	switch r.Intn(5) {
 	case 0, 1:
 		return fmt.Sprintf("mon.tx %s %d", msgKinds[r.Intn(len(msgKinds))], r.Int63())
@@ -298,6 +314,26 @@ func (f *Fam) execWire(op string, w []string, fail func(string, string, string))
 		var si2 posTypes.ValidatorSigningInfo
 		if err := cdc.UnmarshalBinaryLengthPrefixed(sbz, &si2); err != nil || !reflect.DeepEqual(normSI(si), normSI(si2)) {
 			fail("roundtrip", "C20:signing-info-roundtrip", fmt.Sprintf("%s: %+v -> %+v (%v)", op, si, si2, err))
+		}
+		return "done"
+	case "mon.deccointext": // ParseDecCoin / ParseDecCoins: an error or a value, never a panic; what parses prints and parses back
+		txt := string(unhx(w[1]))
+		var one sdk.DecCoin
+		var many sdk.DecCoins
+		var e1, e2 error
+		if p := try(func() string { one, e1 = sdk.ParseDecCoin(txt); many, e2 = sdk.ParseDecCoins(txt); return "" }); p != "" {
+			fail("no-crash", "C20:deccoin-parse-panic", fmt.Sprintf("%s: parsing %q panicked", op, txt))
+			return "done"
+		}
+		if e1 == nil {
+			if back, err := sdk.ParseDecCoin(one.String()); err != nil || back.Denom != one.Denom || !back.Amount.Equal(one.Amount) {
+				fail("roundtrip", "C20:deccoin-text-roundtrip", fmt.Sprintf("%s: %q parsed to %v, printed %q, parsed again %v (%v)", op, txt, one, one.String(), back, err))
+			}
+		}
+		if e2 == nil && len(many) > 0 {
+			if back, err := sdk.ParseDecCoins(many.String()); err != nil || back.String() != many.String() {
+				fail("roundtrip", "C20:deccoin-text-roundtrip", fmt.Sprintf("%s: %q parsed to %v, parsed again %v (%v)", op, txt, many, back, err))
+			}
 		}
 		return "done"
 	case "mon.cointext": // Coin / Coins: String() followed by ParseCoin / ParseCoins gives the value back
